@@ -81,7 +81,7 @@ fn run_count(prop: &str, thorough: bool) -> u64 {
         "C05" | "C06" | "C07" | "C08" => (25_000, 400_000),
         "C09" => (8_000, 150_000),
         "C10" => (4_000, 60_000),
-        "C11" => (16_000, 300_000),
+        "C11" => (16_000, 200_000),
         "C12" => (12_000, 250_000),
         "C13" => (20_000, 400_000),
         "C14" => (20_000, 400_000),
